@@ -1,6 +1,7 @@
 CONSTANT N = 3
 CONSTANT PLENS = {2}
 CONSTANT ANCHOR = TRUE
+CONSTANT FINE = {2}
 CONSTANT NORMALISE = FALSE
 SPECIFICATION Spec
 CHECK_DEADLOCK FALSE
